@@ -111,7 +111,9 @@ func runWithInvariant(s *sut.SUT, ops []hist.Op, sd int64) (*hist.Runner, string
 	for i, op := range ops {
 		var prot map[string]bool
 		if op.K == hist.OpJob {
-			prot, _ = protectedRows(s, sut.Now())
+			// "outstanding" with the model's margin: a delivery whose retention ends
+			// within 10 ms of the job's own clock reading may legitimately be reaped
+			prot, _ = protectedRows(s, sut.Now().Add(hist.Eps))
 		}
 		if !r.Step(op) {
 			break
